@@ -4,5 +4,6 @@ CONSTANTS
   Opts <- TripleOpts
   MaxSet = 3
   Variant = "intended"
+  Fixed = {}
 INVARIANTS TypeOK C35_PrintedFileAccepted C35_RoundTrip
 CHECK_DEADLOCK FALSE
